@@ -61,6 +61,20 @@ package conf
 //@   call Deref#0: assert arg_t == tp
 //@   ghost at after Deref#0: dt = ret
 //@   call buildStructFieldsInfo#0: assert arg_tp == dt
+// containers are looked through at every depth: an array, slice or map yields whatever its (dereferenced) element type yields,
+// by recursion - never a leaf
+//@   ghost at entry: rec = false
+//@   ghost at after buildFieldsInfo#0: rec = true
+//@   call Deref#1: assert arg_t == dt.Elem()
+//@   call buildFieldsInfo#0: assert arg_fullName == fullName
+//@   ensures_local implies(dt.Kind() == reflect.Array || dt.Kind() == reflect.Slice || dt.Kind() == reflect.Map, rec)
+// every embedded field is flattened into its parent, whatever its tag says (mapping flattens every embedded struct, so the
+// two sides must agree); every other field is registered under its own name
+//@ func buildStructFieldsInfo
+//@   property C17
+//@   call buildAnonymousFieldInfo#*: assert field.Anonymous && arg_info == info && arg_lowerCaseName == strings.ToLower(name)
+//@   call buildNamedFieldInfo#*: assert !field.Anonymous && arg_info == info && arg_lowerCaseName == strings.ToLower(name)
+//@   loop 0: invariant info != nil
 //@ func toLowerCase
 //@   property C17
 //@   ensures result == strings.ToLower(s)
